@@ -9,21 +9,21 @@ def check(id, cat, text, note, technique, ref):
 
 T_AST = "custom static analyser over go/packages + go/types ASTs: "
 check("C01", "other", "Necessary structural conditions of the accepted grammar, checked on every return site, table and path of the four parsers; does not decide the scanner loops.",
-      "That the hand-written scanners hand exactly the '/'-separated elements to the cursor logic is NOT decided (DESIGN §10); their index and slice expressions on the input text ARE proved in range (R01.bounds: zone-domain abstract interpretation with widening). Vocabulary oracle transcribed from the specifications.",
+      "That the hand-written scanners hand exactly the '/'-separated elements to the cursor logic is NOT proved (DESIGN §10, AS-BUILT 43): it is only tabulated on a bounded family of inputs (R01.scan: canonical vectors with a bad element at every position, evaluated by the checker's fragment evaluator — closer to a table-driven test than to static analysis, no floor, no verdict where the evaluator cannot run the parser); their index and slice expressions on the input text ARE proved in range (R01.bounds: zone-domain abstract interpretation with widening, partitioned on the sign of a sentinel index). Vocabulary oracle transcribed from the specifications.",
       T_AST + "return-site census; go/cfg path rules; abstract interpretation in the zone domain (difference-bound matrices, widening) proving every index/slice expression on input text in range; cursor logic of the fixed-order parsers tabulated into a finite automaton and compared with the specification's order automaton by a product walk (acceptance, error kinds, Set called on every consumed element); v3 defined-once / missing-metric logic interpreted symbolically over flags or bit sets for every subset of metrics; vocabulary tables compared with the specification", "DESIGN §5 C01, AS-BUILT 14, 22-23, 27, 38")
 check("C02", "other", "Round trip reduced to proved layout facts (C07) plus serializer/parser table agreement; decided for every metric and value.",
-      "The parser loop accepting the emitted string is shared with C01 and not decided.", T_AST + "symbolic interpretation of Vector over the strings Get prints (helpers inlined, constant-table loops unrolled, branches merged, receiver-bit tests lifted to Get strings) giving the exact shape of the output; Set/Get layout models (syntactic, or read off runs of Set on a symbolic receiver); one direction of the parser automaton comparison (accepts everything Vector writes)", "DESIGN §5 C02, AS-BUILT 20, 24, 31-34")
+      "The parser loop accepting the emitted string is shared with C01 and not decided.", T_AST + "symbolic interpretation of Vector over the strings Get prints (helpers inlined, constant-table loops unrolled, branches merged, receiver-bit tests lifted to Get strings) giving the exact shape of the output; Set/Get layout models (syntactic, or read off runs of Set on a symbolic receiver); one direction of the parser automaton comparison (accepts everything Vector writes); the length of the returned string is len(buffer) or a sizing value proved equal to the bytes written for every object (R02.strlen)", "DESIGN §5 C02, AS-BUILT 20, 24, 31-34, 44")
 check("C03", "other", "The code evaluates the specification's expressions with the specification's constants on the right inputs (canonical formula trees, weight tables, byte routing = oracle) AND every rounding step/comparison is farther from its discontinuity than any float64 evaluation error, for every metric combination — so the returned one-decimal values are exactly the specification's.",
       "Trusted: IEEE-754 binary64 round-to-nearest error model stated in checker/floatsafe.go; EnvironmentalScore float64-stability (3.36 M combinations per version) is re-derived in the thorough tier only.", T_AST + "symbolic evaluation of loop-free methods into canonical formula trees (exact rational literals), known-bits routing of every byte read, weight tables by exhaustive evaluation of the helper switches", "DESIGN §5 C03")
 check("C04", "other", "Every table, predicate, guard and per-EQ term of the MacroVector algorithm equals the specification; EQ predicates and next-lower logic by complete finite tabulation.",
       "Exact x.x5 tie classes (2 887 of 52 650) are not decided. Lookup oracle is a second-hand copy of FIRST's table (claircore).", T_AST + "complete truth tables of loop-free fragments over metric codes (M7), table extraction, template matching of the interpolation def-use chain", "DESIGN §5 C04")
 check("C05", "other", "As C03 for the v2.0 equations.", "Combinations within the float64 error bound of an exact half-way case are counted, not decided (the property leaves half-way cases open).", T_AST + "canonical formula trees, weight tables, known-bits routing", "DESIGN §5 C05")
 check("C06", "other", "Set receives the two halves of the same element on the returned, all-zero-initialised object; code 0 is the not-defined token; Get inverts Set (C07).",
-      "Which elements the loops visit is C01's undecided part.", T_AST + "def-use identity of Set's arguments, all-zero object check, layout model (known-bits abstract interpretation, or runs of Set/Get on a symbolic receiver), cut at ':' (shape, or bounded evaluation when the shape is not recognised)", "DESIGN §5 C06, AS-BUILT 31-32, 38")
+      "Which elements the loops visit is C01's undecided part.", T_AST + "def-use identity of Set's arguments, all-zero object check, layout model (known-bits abstract interpretation, or runs of Set/Get on a symbolic receiver), cut at ':' (shape, or bounded evaluation when the shape is not recognised); every success return hands back the object the loop wrote (R01.pair); bounded scanner tabulation (R01.scan)", "DESIGN §5 C06, AS-BUILT 31-32, 38, 43")
 check("C07", "proof", "Complete static proof: bit-level non-interference of all 90 Set arms, validate-before-write, Get∘Set = id, unused bits stay 0, Set is the only writer. Sufficient for all three sentences of C07 by induction over call sequences.",
       "Trusted: go/types constant evaluation, the M3 transfer functions for uint8 & | ^ << >> (checker/bits.go), Go's memory safety (no unsafe/reflect on the struct; checked by census).",
       T_AST + "known-bits abstract interpretation of every Set store and Get decode, cross-arm disjointness; when Set is not a switch of stores: Set(abv, value) evaluated on a symbolic receiver for every abbreviation and value, each receiver bit classified as preserved / constant / other", "DESIGN §5 C07, AS-BUILT 31-32")
-check("C08", "other", "Canonical form: emission order, prefixes, skip rule and value idempotence decided per metric.", "The set of accepted strings is C01's.", T_AST + "symbolic interpretation of Vector (exact output shape: order, prefixes, skip sets by evaluating each guard on every string Get prints, v2 group conditions by truth table) against the specification order; parser accepts what Vector writes (automaton)", "DESIGN §5 C08")
+check("C08", "other", "Canonical form: emission order, prefixes, skip rule and value idempotence decided per metric.", "The set of accepted strings is C01's.", T_AST + "symbolic interpretation of Vector (exact output shape: order, prefixes, skip sets by evaluating each guard on every string Get prints, v2 group conditions by truth table) against the specification order; parser accepts what Vector writes (automaton); string length = bytes written (R02.strlen)", "DESIGN §5 C08, AS-BUILT 44")
 check("C09", "other", "Vocabulary equality with the specification, refusing default arms, and exhaustiveness of every panicking switch/table over the codes that can reach it.",
       "Index expressions inside parser loops not decided.", T_AST + "table extraction and exhaustive evaluation of helper switches over reachable code ranges", "DESIGN §5 C09")
 check("C10", "proof", "Complete: the environmental scores are functions of effective values only (symbolic trees for v3, complete truth tables for every v4 local and EQ predicate), defaults for undefined metrics equal the specification's, supplemental metrics are never read.",
